@@ -27,6 +27,8 @@ CONSTANTS Front,        \* "v2" | "legacy"
           Reasons,      \* Nack reason codes (abstract indices; the executor maps them to 0, 150, 2^32+5, ...)
           Envs,         \* link-layer envelopes a packet may arrive in: "bare", "lp", "lph" (LP + optional/unknown headers)
           Junk,         \* classes of undeliverable byte strings
+          Races,        \* {{}}: a cancellation is complete before the next packet; otherwise also sets X of Interests whose
+                        \* cancellation is *in flight* (requested, clean-up not yet run) when a packet is processed
           Defer,        \* {FALSE}: every Interest is awaited at once; BOOLEAN: the caller may also await it later
           Dev           \* subset of {"legacySlowValidator"}
 
@@ -85,15 +87,21 @@ Express(t, df) ==
 \* expressing while the face is down is refused with NetworkError; nothing changes
 ExpressDown(t) == ~up /\ UNCHANGED vars
 
+\* X: Interests whose caller has just cancelled them; their task has not run its clean-up yet, so they are still in
+\* the table when the packet is processed - they get their cancellation and are not addressed by the packet.
+Cancellable(e) == aw[e] /\ ph[e] \in {"pend", "val", "late"}
 Satisfied(d) == { e \in Entry : ph[e] = "pend" /\ Matches(d, tm[e]) }
 \* v2 starts the validator at once (a task of its own); legacy runs it in the awaiting coroutine
 ValidatesNow(e) == Front = "v2" \/ aw[e]
-RecvData(d, env) ==
-  /\ up
-  /\ ph' = [e \in Entry |-> IF e \in Satisfied(d) THEN (IF ValidatesNow(e) THEN "val" ELSE "got") ELSE ph[e]]
-  /\ vrun' = [e \in Entry |-> IF e \in Satisfied(d) /\ ValidatesNow(e) THEN d.id ELSE vrun[e]]
-  /\ held' = [e \in Entry |-> IF e \in Satisfied(d) /\ ~ValidatesNow(e) THEN d.id ELSE held[e]]
-  /\ UNCHANGED <<now, up, used, tm, dl, out, aw, buf>>
+RecvDataX(d, env, X) ==
+  /\ up /\ \A e \in X : Cancellable(e)
+  /\ LET S == Satisfied(d) \ X IN
+       /\ ph' = [e \in Entry |-> IF e \in X THEN "fin" ELSE IF e \in S THEN (IF ValidatesNow(e) THEN "val" ELSE "got") ELSE ph[e]]
+       /\ vrun' = [e \in Entry |-> IF e \in S /\ ValidatesNow(e) THEN d.id ELSE vrun[e]]
+       /\ held' = [e \in Entry |-> IF e \in S /\ ~ValidatesNow(e) THEN d.id ELSE held[e]]
+  /\ out' = [e \in Entry |-> IF e \in X THEN [k |-> "cancel", d |-> 0, r |-> 0, v |-> "-", at |-> now] ELSE out[e]]
+  /\ UNCHANGED <<now, up, used, tm, dl, aw, buf>>
+RecvData(d, env) == RecvDataX(d, env, {})
 
 \* the validator invoked for entry e returns v (v2: also after the entry timed out / was cancelled:
 \* the late verdict is ignored)
@@ -174,13 +182,16 @@ Shutdown ==
   /\ UNCHANGED <<now, used, tm, dl, vrun, aw, held>>
 
 Nacked(t) == { e \in Entry : ph[e] = "pend" /\ SameFullName(tm[e], t) }
-RecvNack(t, r, env) ==
-  /\ up
-  /\ LET o == [k |-> "nack", d |-> 0, r |-> r, v |-> "-", at |-> now] IN
-       /\ out' = [e \in Entry |-> IF e \in Nacked(t) /\ aw[e] THEN o ELSE out[e]]
-       /\ buf' = [e \in Entry |-> IF e \in Nacked(t) /\ ~aw[e] THEN o ELSE buf[e]]
-  /\ ph' = [e \in Entry |-> IF e \in Nacked(t) THEN (IF aw[e] THEN "fin" ELSE "ready") ELSE ph[e]]
+RecvNackX(t, r, env, X) ==
+  /\ up /\ \A e \in X : Cancellable(e)
+  /\ LET o == [k |-> "nack", d |-> 0, r |-> r, v |-> "-", at |-> now]
+         N == Nacked(t) \ X IN
+       /\ out' = [e \in Entry |-> IF e \in X THEN [k |-> "cancel", d |-> 0, r |-> 0, v |-> "-", at |-> now]
+                                  ELSE IF e \in N /\ aw[e] THEN o ELSE out[e]]
+       /\ buf' = [e \in Entry |-> IF e \in N /\ ~aw[e] THEN o ELSE buf[e]]
+       /\ ph' = [e \in Entry |-> IF e \in X THEN "fin" ELSE IF e \in N THEN (IF aw[e] THEN "fin" ELSE "ready") ELSE ph[e]]
   /\ UNCHANGED <<now, up, used, tm, dl, vrun, aw, held>>
+RecvNack(t, r, env) == RecvNackX(t, r, env, {})
 
 \* anything a transport may deliver that addresses nothing: malformed / truncated packets, LP
 \* packets without payload, fragments, unknown types, Data or Nacks nobody waits for
@@ -188,11 +199,11 @@ RecvJunk(j) == up /\ UNCHANGED vars
 
 Next ==
   \/ \E t \in Templates : (\E df \in Defer : Express(t, df)) \/ ExpressDown(t)
-  \/ \E d \in DataSet, env \in Envs : RecvData(d, env)
+  \/ \E d \in DataSet, env \in Envs, X \in Races : RecvDataX(d, env, X)
   \/ \E e \in Entry, v \in Verdicts : ValFinish(e, v) \/ LateFinish(e, v)
   \/ Fire \/ Tick \/ Shutdown
   \/ \E e \in Entry : Cancel(e) \/ Await(e)
-  \/ \E t \in Templates, r \in Reasons, env \in Envs : RecvNack(t, r, env)
+  \/ \E t \in Templates, r \in Reasons, env \in Envs, X \in Races : RecvNackX(t, r, env, X)
   \/ \E j \in Junk : RecvJunk(j)
 
 Fairness == /\ WF_vars(Tick) /\ WF_vars(Fire)
@@ -251,5 +262,6 @@ W_TimeoutWhileValidating == ~(\E e \in Entry : out[e].k = "timeout" /\ vrun[e] #
 W_TwoSatisfied == ~(Cardinality({e \in Entry : out[e].k = "data"}) >= 2)
 W_NackOne == ~(\E e, f \in Entry : out[e].k = "nack" /\ ph[f] = "pend")
 W_VFail == ~(\E e \in Entry : out[e].k = "vfail")
+W_RaceData == ~(\E e, f \in Entry : out[e].k = "cancel" /\ out[f].k = "data" /\ tm[e].name = tm[f].name /\ out[e].at <= out[f].at)
 W_LateAwaitData == ~(\E e \in Entry : out[e].k = "data" /\ out[e].at > dl[e])
 =============================================================================
